@@ -49,7 +49,8 @@ def run(run, tier, seed, replay_case=None):
 
     rng = random.Random(seed * 7919 + 5)
     corpus = C.load_corpus(PROP)
-    n = 1200 if tier == "quick" else 25000
+    n = 1200 if tier == "quick" else 12000
+    n = int(os.environ.get("VERIF_N", n))            # smaller batches for seeded-bug trials on a loaded machine
     cases = list(corpus) + list(P.SEED_CASES) + P.gen_cases(rng, n, tier)
     if replay_case is not None:
         cases = [replay_case]
@@ -57,7 +58,7 @@ def run(run, tier, seed, replay_case=None):
     D = C.Differential(run, PROP, [impl], model, env, view=P.view_C05, signatures=SIGNATURES, keep_first=0,
                        model_desc="coq/C05/Model.v vs src/core/device.cpp, serial/{device,buffer}.cpp, core/buffer.cpp, core/memoryPool.cpp")
     I, R, S = D.eval(cases)
-    D.judge(cases, I, R, S, proof_failures=pr["failures"])
+    D.judge(cases, I, R, S, proof_failures=pr["failures"], max_report=(3 if "VERIF_N" in os.environ else 12))
 
     cov = run.coverage
     cov["distinct_nontrivial"] = len(set(c for c in cases if P.nontrivial(c)))
